@@ -7,7 +7,8 @@ W=$(mktemp -d /tmp/jdvwt-XXXXXX); rmdir $W
 git -C /repo worktree add -q --detach $W HEAD || exit 2
 if ! git -C $W apply $S/patch.diff; then echo "seed=$1 PATCH DOES NOT APPLY"; git -C /repo worktree remove --force $W; exit 2; fi
 start=$(date +%s)
-out=$(cd /verif && JDV_REPO=$W JDV_EVIDENCE_DIR=$W.ev ./check $P $T 2>&1); rc=$?
+HERE=$(cd "$(dirname "$0")/.." && pwd)
+out=$(cd $HERE && JDV_REPO=$W JDV_EVIDENCE_DIR=$W.ev ./check $P $T 2>&1); rc=$?
 git -C /repo worktree remove --force $W; rm -rf $W.ev
 nv=$(echo "$out" | grep -c '^VIOLATION')
 echo "seed=$1 property=$P tier=$T exit=$rc violation_lines=$nv wall=$(( $(date +%s) - start ))s"
